@@ -4,6 +4,8 @@
 //! For the compiled programs the analysis tables are tied to the model: per lambda/task (number of captures, number
 //! of locals) read off the real unoptimised assembly against `Abra.Analysis` on the generator's resolved AST,
 //! together with the model's verdict on the loop contexts and on the completeness of every offset table.
+#[path = "../bg9cov.rs"]
+mod bg9cov;
 #[path = "../progen.rs"]
 mod progen;
 use progen::run::*;
@@ -248,6 +250,8 @@ fn param_assign_programs() -> Vec<(String, Program, Option<String>)> {
 fn main() {
     let mut ctx = Ctx::from_env("C03");
     let base = probe_shapes(&mut ctx);
+    // coverage-guided template families with their own oracles (harness/src/bg9cov.rs)
+    bg9cov::run_templates(&mut ctx, "C03");
 
     // assignment to parameters: captured => diagnostic; own => accepted, compiles and computes the right value
     let pa = param_assign_programs();
